@@ -30,7 +30,26 @@ func AllMerges(p *sdl.Program) []map[string]string { return allMerges(ActiveSour
 
 // AllMergesAfterReload: the same with the late sources included.
 func AllMergesAfterReload(p *sdl.Program) []map[string]string {
-	return allMerges(secondPass(ActiveSourcesAfterReload(p)))
+	// the second initialisation merges every output again, in sequence, ON TOP of what the
+	// first one left in the binder (the key trees are of equal shape, so overlaying the
+	// flattened leaves is the deep merge)
+	var out []map[string]string
+	for _, m1 := range AllMerges(p) {
+		for _, m2 := range allMerges(secondPass(ActiveSourcesAfterReload(p))) {
+			m := map[string]string{}
+			for k, x := range m1 {
+				m[k] = x
+			}
+			for k, x := range m2 {
+				m[k] = x
+			}
+			out = append(out, m)
+			if len(out) > 64 {
+				return out
+			}
+		}
+	}
+	return out
 }
 
 func allMerges(act []*sdl.Source) []map[string]string {
@@ -115,6 +134,9 @@ func permute(xs []*sdl.Source, f func([]*sdl.Source) bool) {
 func AllLeafPaths(p *sdl.Program) []string {
 	set := map[string]bool{}
 	for _, s := range p.Sources {
+		for k := range FlattenDoc(s.Doc2) {
+			set[k] = true
+		}
 		for k := range FlattenDoc(s.Doc) {
 			set[k] = true
 		}
@@ -132,14 +154,24 @@ func AllLeafPaths(p *sdl.Program) []string {
 func (w *World) CheckConfigMerge(o *Obs) []Violation {
 	var vs []Violation
 	p := w.P
-	if len(p.Sources) == 0 || o.Get == nil {
+	if len(p.Sources) == 0 {
 		return nil
 	}
 	if ActiveFault(p) != "" {
 		return nil // precedence is judged on fault-free configurations only
 	}
 	if !o.OK() {
-		return nil // failures for other reasons (validation, required values) are C09 / C18
+		// failures for other reasons (validation, required values, expressions over absent keys)
+		// are C09 / C18
+		// ... except a panic: with every source intact, sequencing and merging the loaders cannot
+		// blow up (what the fields do with the merged values can only fail with an error)
+		if o.Panic != "" && !o.RegPanic && !o.Stuck && !o.OverSteps {
+			vs = append(vs, v("C15", "loading-intact-sources-panicked", "", fmt.Sprintf("every configuration source is intact, yet Run panicked: %s [%s]; sources: %s", o.Panic, o.PanicStk, describeSources(p))))
+		}
+		return vs
+	}
+	if o.Get == nil {
+		return nil
 	}
 	vs = append(vs, w.checkMergeStage(o.Get, AllMerges(p), "")...)
 	if o.Get2 != nil {
@@ -382,6 +414,28 @@ func evalConfP(cf *sdl.Conf, cfg map[string]string, preset bool) confExpect {
 		} else {
 			val = v
 		}
+	case "prefixReq":
+		// struct{ Inner struct{ A int } `validate:"required"`; B string }: a required struct member
+		// is violated exactly when it is all zero
+		a, okA := cfg[cf.Keys[0]+".inner.a"]
+		b, okB := cfg[cf.Keys[0]+".b"]
+		if !okA && !okB {
+			e.Missing = true
+			e.Value = "{0 }"
+			if cf.Validate == "struct" {
+				e.Violate = true // nothing is bound: the zero struct is what validation sees
+			}
+			return e
+		}
+		if !okA {
+			a = "0"
+		}
+		e.Value = fmt.Sprintf("{%s %s}", a, b)
+		if cf.Validate == "struct" {
+			x, _ := strconv.Atoi(a)
+			e.Violate = x == 0
+		}
+		return e
 	case "prefixNest":
 		// struct{ Inner *struct{ A int `validate:"min=3"` }; B string }: Inner stays nil unless
 		// the configuration supplies something below it
@@ -809,9 +863,14 @@ func (w *World) ConfigDemand() (string, string) {
 func secondPass(act []*sdl.Source) []*sdl.Source {
 	out := make([]*sdl.Source, len(act))
 	for i, s := range act {
-		if s.Order2 != nil {
+		if s.Order2 != nil || s.Doc2 != nil {
 			c := *s
-			c.Order = *s.Order2
+			if s.Order2 != nil {
+				c.Order = *s.Order2
+			}
+			if s.Doc2 != nil {
+				c.Doc = s.Doc2 // a source whose content has changed by then
+			}
 			s = &c
 		}
 		out[i] = s
